@@ -426,6 +426,23 @@ class C14(Prop):
                     for job_id in ((1, 2, 3) if 'job_id' in params else (None,)):
                         for group in ((0, 1) if 'job_group_id' in params else (None,)):
                             yield {'kind': 'item', 'route': r['path'], 'who': who, 'job_id': job_id, 'job_group_id': group}
+        # membership changes between requests of ONE front-end process: each request is judged against the membership at that time
+        GETB, CANCEL, DELETE = ['GET', '/api/v1alpha/batches/{batch_id}'], ['PATCH', '/api/v1alpha/batches/{batch_id}/cancel'], ['DELETE', '/api/v1alpha/batches/{batch_id}']
+        JOBS = ['GET', '/api/v1alpha/batches/{batch_id}/jobs']
+        for reqs in ([GETB], [GETB, CANCEL], [JOBS, DELETE], [CANCEL]):
+            yield {'kind': 'seq', 'steps': [['req', *r, 'bob'] for r in reqs] + [['remove', 'bp_alice_1', 'bob']] + [['req', *r, 'bob'] for r in (reqs + [GETB, CANCEL])]}
+            yield {'kind': 'seq', 'steps': [['req', *r, 'carol'] for r in reqs] + [['add', 'bp_alice_1', 'carol']] + [['req', *r, 'carol'] for r in reqs]
+                   + [['remove', 'bp_alice_1', 'carol']] + [['req', *r, 'carol'] for r in reqs]}
+        for _ in range(40 if tier == 'quick' else 600):
+            steps = []
+            for _ in range(rng.randint(3, 9)):
+                u = rng.choice(['bob', 'carol'])
+                if rng.random() < 0.3:
+                    steps.append([rng.choice(['add', 'remove']), 'bp_alice_1', u])
+                else:
+                    steps.append(['req', *rng.choice([GETB, CANCEL, JOBS, DELETE]), u])
+            steps.append(['req', *GETB, rng.choice(['bob', 'carol'])])
+            yield {'kind': 'seq', 'steps': steps}
         for route in BILLING_READS:
             for who in BILLING_WHO:
                 yield {'kind': 'billing', 'route': route, 'who': who}
@@ -521,6 +538,16 @@ class C14(Prop):
             return ['sess %d %s' % (TTL_MS, ' '.join(c['events']))]
         if c['kind'] in ('data', 'billing', 'item'):
             return ['rows']
+        if c['kind'] == 'seq':
+            # one guard line per request, with the membership bit of that moment
+            lines, member = [], {'bob': True, 'carol': False}
+            for st in c['steps']:
+                if st[0] == 'req':
+                    bits = {'hasSession': 1, 'active': 1, 'developer': 0, 'isAuth': 0, 'member': int(member[st[3]]), 'owner': 0, 'batchIdOk': 1, 'serviceAccount': 0}
+                    lines.append('guard %d %s' % (self._index([st[1], st[2]]), ' '.join(str(bits[f]) for f in CALLER_FIELDS)))
+                else:
+                    member[st[2]] = st[0] == 'add'
+            return lines
         if c['kind'] == 'list':
             return ['list %d %d' % (c['who'] in ('owner', 'mate'), c['who'] == 'namesake')]
         m = MUTATORS[c['handler']][0]
@@ -801,6 +828,36 @@ class C14(Prop):
         self._cache[k] = res
         return res
 
+    def _seq(self, c):
+        """requests and membership changes in ONE process (module-level state of front_end survives between the requests); the
+        membership is changed through the real `_remove_user_from_billing_project` / the statement of `_add_user_to_billing_project`"""
+        k = json.dumps(c, sort_keys=True)
+        if k in self._cache:
+            return self._cache[k]
+        self.db.restore(self.snap_data)
+        member = {'bob': True, 'carol': False}
+        out = []
+        for st in c['steps']:
+            if st[0] == 'req':
+                _, method, path_t, user = st
+                status, _ = self.loop.run_until_complete(self._call(method, path_t, {'batch_id': self.R}, self.ud(user)))
+                entered = bool(self.entered)
+                outcome = 'allow' if entered else {302: 'redirect', 401: '401', 403: '403', 404: '404', 500: '500'}.get(status, f'status{status}')
+                out.append((method, path_t, user, member[user], entered, outcome))
+            elif st[0] == 'remove':
+                try:
+                    self.loop.run_until_complete(self.fe._remove_user_from_billing_project(self.app['db'], st[1], st[2]))
+                except Exception:
+                    pass        # not a member: the real function refuses
+                member[st[2]] = False
+            else:
+                if not member[st[2]]:
+                    # the INSERT of `_add_user_to_billing_project` (the function itself first asks the auth service about the user)
+                    self.db.execute('INSERT INTO billing_project_users(billing_project, user, user_cs) VALUES (%s, %s, %s)', (st[1], st[2], st[2]))
+                member[st[2]] = True
+        self._cache[k] = out
+        return out
+
     def _billing(self, c):
         k = json.dumps(c, sort_keys=True)
         if k in self._cache:
@@ -889,6 +946,8 @@ class C14(Prop):
         if c['kind'] == 'item':
             bad = self._item(c)[3]
             return ['only-permitted-rows' if not bad else f'foreign-rows:{len(bad)}']
+        if c['kind'] == 'seq':
+            return [f'{m} {p} {o} member' for (m, p, u, mem, ent, o) in self._seq(c)]
         if c['kind'] == 'session':
             return [','.join(str(st) for _, st in self._session(c))]
         if c['kind'] == 'admin':
@@ -925,6 +984,12 @@ class C14(Prop):
                         f'class {cls}')
             if not entered and writes:
                 return f'denied-but-wrote: {method} {path_t} ({r["handler"]}) refused [{who}] but executed {writes[0][:80]!r}'
+            return None
+        if c['kind'] == 'seq':
+            for i, (m, p, u, mem, ent, o) in enumerate(self._seq(c)):
+                if ent and not mem:
+                    return (f'unguarded over time: request #{i + 1} {m} {p} (batch {self.R}) by {u} reached the handler body although {u} is not a member of the '
+                            f'batch\'s billing project at that moment; steps {c["steps"]}')
             return None
         if c['kind'] == 'item':
             status, _, asked, bad = self._item(c)
@@ -1006,13 +1071,16 @@ class C14(Prop):
         return json.dumps(c, sort_keys=True)
 
     def classify(self, c, out):
-        line = out[0]
+        line = out[0] if out else ''
         if c['kind'] == 'guard':
             parts = line.split(' ')
             outcome, cls = (parts[-2], parts[-1]) if len(parts) >= 4 else ('?', '?')
             tags = ['guard:' + outcome, 'class:' + cls]
             nontrivial = outcome != 'allow' or cls != 'pub'
             return (json.dumps(c, sort_keys=True) if nontrivial else None, tags)
+        if c['kind'] == 'seq':
+            changed = any(st[0] != 'req' for st in c['steps'])
+            return (json.dumps(c, sort_keys=True) if changed else None, ['seq:' + ('membership-changes' if changed else 'static')])
         if c['kind'] == 'item':
             status, n, asked, bad = self._item(c)
             return (json.dumps(c, sort_keys=True) if status == 200 and (n > 2 or asked) else None, [f'item:{status}:{"data" if n > 2 or asked else "empty"}'])
